@@ -179,7 +179,7 @@ def run(ctx):
     ctx.log("histories=%d ops=%d divergences=%d alarms=%s" % (len(traces), len(all_ops), n_div, viol_hist))
     # alarms about OTHER properties do not decide this check, but they must not be lost: keep the history
     if others:
-        odir = os.path.join(lib.ROOT, "build", "other-alarms")
+        odir = os.path.join(lib.ROOT, "build", "other-alarms-seeded" if os.environ.get("VERIF_REPO") else "other-alarms")
         os.makedirs(odir, exist_ok=True)
         for p_, (ti, i, text) in others.items():
             with open(os.path.join(odir, "%s-seen-by-%s-%s.txt" % (p_, prop, ctx.tier)), "w") as f:
